@@ -18,6 +18,7 @@ import unified_planning as up
 import unified_planning.engines as engines
 from unified_planning.engines.mixins.compiler import CompilationKind, CompilerMixin
 from unified_planning.engines.results import CompilerResult
+from unified_planning.engines.compilers.utils import grounded_problem_kind
 from unified_planning.model import (
     Problem,
     ProblemKind,
@@ -440,7 +441,7 @@ class Grounder(engines.engine.Engine, CompilerMixin):
     def resulting_problem_kind(
         problem_kind: ProblemKind, compilation_kind: Optional[CompilationKind] = None
     ) -> ProblemKind:
-        return problem_kind.clone()
+        return grounded_problem_kind(problem_kind)
 
     def _compile(
         self,
